@@ -232,3 +232,140 @@ func instrPos(in ssa.Instruction) token.Pos {
 	}
 	return in.Parent().Pos()
 }
+
+// RunPhiSensitive is the E1b variant of Run: along each path the truth value
+// of boolean phis is tracked (a phi takes the constant, or the tracked value
+// of the phi, that flows in over the edge the path took) and an If on a phi
+// whose value is known follows only the consistent edge. Used for flags that
+// are set on the path and tested later (`changed = true ... if changed {..}`).
+func (q *Cut) RunPhiSensitive(c *Ctx) (string, int) {
+	type env map[*ssa.Phi]bool
+	sig := func(e env) string {
+		var ks []string
+		for p, v := range e {
+			ks = append(ks, fmt.Sprintf("%s=%v", p.Name(), v))
+		}
+		sortStrings(ks)
+		return strings.Join(ks, ",")
+	}
+	type item struct {
+		l    loc
+		e    env
+		prev *item
+	}
+	var work []*item
+	seen := map[string]bool{}
+	push := func(b *ssa.BasicBlock, i int, e env, prev *item) {
+		k := fmt.Sprintf("%d|%d|%s", b.Index, i, sig(e))
+		if seen[k] {
+			return
+		}
+		seen[k] = true
+		work = append(work, &item{loc{b, i}, e, prev})
+	}
+	if len(q.From) == 0 && len(q.FromEdges) == 0 {
+		push(q.Fn.Blocks[0], 0, env{}, nil)
+	}
+	for _, f := range q.From {
+		push(f.Block(), instrIndex(f)+1, env{}, nil)
+	}
+	enter := func(from *ssa.BasicBlock, to *ssa.BasicBlock, e env) env {
+		idx := -1
+		for i, p := range to.Preds {
+			if p == from {
+				idx = i
+			}
+		}
+		ne := env{}
+		for k, v := range e {
+			ne[k] = v
+		}
+		for _, in := range to.Instrs {
+			p, ok := in.(*ssa.Phi)
+			if !ok {
+				break
+			}
+			if idx < 0 || idx >= len(p.Edges) {
+				continue
+			}
+			switch x := p.Edges[idx].(type) {
+			case *ssa.Const:
+				if b, isB := constBool(x); isB {
+					ne[p] = b
+				} else {
+					delete(ne, p)
+				}
+			case *ssa.Phi:
+				if v, known := e[x]; known {
+					ne[p] = v
+				} else {
+					delete(ne, p)
+				}
+			default:
+				delete(ne, p)
+			}
+		}
+		return ne
+	}
+	for _, fe := range q.FromEdges {
+		t := fe.B.Succs[fe.Succ]
+		push(t, 0, enter(fe.B, t, env{}), nil)
+	}
+	examined := 0
+	for len(work) > 0 {
+		it := work[0]
+		work = work[1:]
+		b := it.l.b
+		stopped := false
+		for i := it.l.i; i < len(b.Instrs); i++ {
+			in := b.Instrs[i]
+			if q.Target != nil && q.Target(in) {
+				var parts []string
+				for p := it; p != nil; p = p.prev {
+					parts = append([]string{fmt.Sprintf("b%d", p.l.b.Index)}, parts...)
+				}
+				if len(parts) > 14 {
+					parts = append(append(parts[:6:6], "…"), parts[len(parts)-6:]...)
+				}
+				return fmt.Sprintf("%s reaches `%s` at %s via %s", q.startDesc(), describeInstr(in), c.Pos(instrPos(in)), strings.Join(parts, "→")), examined
+			}
+			if q.Sep != nil && q.Sep(in) {
+				stopped = true
+				break
+			}
+		}
+		if stopped {
+			continue
+		}
+		for s, succ := range b.Succs {
+			examined++
+			if q.EdgeCut != nil && q.EdgeCut(b, s) {
+				continue
+			}
+			if q.contradicts(b, s) {
+				continue
+			}
+			if i := ifOf(b); i != nil {
+				base, neg := stripNot(i.Cond)
+				if p, ok := base.(*ssa.Phi); ok {
+					if v, known := it.e[p]; known {
+						taken := (s == 0) != neg
+						if taken != v {
+							continue
+						}
+					}
+				}
+			}
+			push(succ, 0, enter(b, succ, it.e), it)
+		}
+	}
+	return "", examined
+}
+
+func sortStrings(s []string) {
+	for i := 1; i < len(s); i++ {
+		for j := i; j > 0 && s[j] < s[j-1]; j-- {
+			s[j], s[j-1] = s[j-1], s[j]
+		}
+	}
+}
